@@ -79,9 +79,22 @@ func (c *Compiler) parseQuery(stmt ast.Node, src string, o opts.Parser) (*Query,
 	rvs := rangeVars(raw.Stmt)
 	refs := findParameters(raw.Stmt)
 	if o.UsePositionalParameters {
+		// positional binds follow the `?` marks, i.e. the text order of the
+		// placeholders, not the order in which the tree walk meets them; every
+		// occurrence of $n is described by the first reference the walk found,
+		// as in numbered mode
+		first := uniqueParamRefs(refs)
+		sort.SliceStable(refs, func(i, j int) bool { return refs[i].ref.Location < refs[j].ref.Location })
 		edits, err = rewriteNumberedParameters(refs, raw, rawSQL)
 		if err != nil {
 			return nil, err
+		}
+		for i := range refs {
+			for _, f := range first {
+				if f.ref.Number == refs[i].ref.Number {
+					refs[i] = f
+				}
+			}
 		}
 	} else {
 		refs = uniqueParamRefs(refs)
